@@ -42,4 +42,6 @@ def main : IO Unit := do
     loop h out ({} : Persist.PState) Persist.driverStep {}
   | some (.list [.atom "model", .atom "classes"]) =>
     loop h out ({} : Classes.DState) Classes.driverStep {}
+  | some (.list [.atom "model", .atom "ident"]) =>
+    loop h out ({} : Ident.World) Ident.driverStep {}
   | _ => out.putStrLn "unknown-model"
